@@ -19,6 +19,8 @@ type GraphOpts struct {
 	Names       bool // in a quarter of the models, rename types and relations: upper case, names that differ only in case, names starting with "R" (the prefix of the builder's internal cycle placeholders), '-', '.', '/' inside names
 	Deep        bool // rarely (1 in 25) append a chain of 26..70 relations, each one hop or rewrite away from the next
 	Depth3      bool // in a sixth of the models allow three operator levels (cousin operators) also outside the Big profile
+	SingleChild bool // API-written models: unions / intersections with a single operand (one operator in ten)
+	NoRestr     bool // API-written models: a direct assignment without any type restriction (one assignable relation in thirty)
 }
 
 var (
@@ -94,7 +96,9 @@ func GraphModel(t *rapid.T, o GraphOpts) *Model {
 			rd := Relation{Name: gRelNames[j]}
 			c.cur, c.nThis = j, 0
 			rd.Rw = c.rewrite(0)
-			if c.nThis > 0 {
+			if c.nThis > 0 && o.NoRestr && rapid.IntRange(0, 29).Draw(t, "noRestr") == 0 {
+				// no restriction at all: nothing can ever be assigned, the relation reaches no terminal type through it
+			} else if c.nThis > 0 {
 				maxRestr := 3
 				if o.WildBoost {
 					maxRestr = 5
@@ -458,6 +462,9 @@ func (c *graphCtx) rewrite(depth int) *Rewrite {
 		return &Rewrite{Kind: TTU, Rel: rapid.SampledFrom(c.rels).Draw(c.t, "trel"), Tupleset: ts}
 	case k <= 8:
 		n := rapid.IntRange(2, 3).Draw(c.t, "n")
+		if c.o.SingleChild && rapid.IntRange(0, 9).Draw(c.t, "single") == 0 {
+			n = 1
+		}
 		r := &Rewrite{Kind: Union}
 		for i := 0; i < n; i++ {
 			r.Kids = append(r.Kids, c.rewrite(depth+1))
@@ -466,6 +473,9 @@ func (c *graphCtx) rewrite(depth int) *Rewrite {
 		return r
 	case k <= 10:
 		n := rapid.IntRange(2, 3).Draw(c.t, "n")
+		if c.o.SingleChild && rapid.IntRange(0, 9).Draw(c.t, "single") == 0 {
+			n = 1
+		}
 		r := &Rewrite{Kind: Intersection}
 		for i := 0; i < n; i++ {
 			r.Kids = append(r.Kids, c.rewrite(depth+1))
